@@ -68,7 +68,13 @@ func (x *Exec) callFunction(fc *frameCtx, st *State, i *ssa.Call, callee *ssa.Fu
 			}
 			var tvs []TV
 			for j, a := range args {
-				tvs = append(tvs, TV{a, callee.Params[j].Type()})
+				var pt types.Type
+				if j < len(callee.Params) {
+					pt = callee.Params[j].Type()
+				} else if sg := callee.Signature; sg.Recv() == nil && j < sg.Params().Len() {
+					pt = sg.Params().At(j).Type() // body-less (standard library) callee
+				}
+				tvs = append(tvs, TV{a, pt})
 			}
 			fc.callArgs = tvs
 			t := x.evalBool(fc, st, ac.Expr, nil)
